@@ -488,6 +488,16 @@ func init() {
 		}
 		return e
 	})
+	// length arithmetic of the padded encodings (StdEncoding / URLEncoding, the ones the codec
+	// contract above stands for)
+	add("(*encoding/base64.Encoding).DecodedLen", func(m *Machine, _ *Thread, _ *Frame, a []Value, _ ssa.Value) Value {
+		n := a[1].(*Term)
+		return BVBin("bvmul", BVBin("bvudiv", n, BVC(64, 4)), BVC(64, 3))
+	})
+	add("(*encoding/base64.Encoding).EncodedLen", func(m *Machine, _ *Thread, _ *Frame, a []Value, _ ssa.Value) Value {
+		n := a[1].(*Term)
+		return BVBin("bvmul", BVBin("bvudiv", BVBin("bvadd", n, BVC(64, 2)), BVC(64, 3)), BVC(64, 4))
+	})
 	add("(*encoding/base64.Encoding).DecodeString", func(m *Machine, _ *Thread, _ *Frame, a []Value, _ ssa.Value) Value {
 		s := str(a[1])
 		if m.Domain == DomAlgebra {
